@@ -11,6 +11,7 @@ import (
 	"fmt"
 	"go/ast"
 	"go/parser"
+	"go/printer"
 	"go/token"
 	"os"
 	"path/filepath"
@@ -249,6 +250,9 @@ func natExpr(e ast.Expr) (string, bool) {
 		x, ok1 := natExpr(e.X)
 		y, ok2 := natExpr(e.Y)
 		op := map[token.Token]string{token.ADD: "+", token.QUO: "/", token.MUL: "*", token.LSS: "<", token.SUB: "-"}[e.Op]
+		if ok1 && ok2 && e.Op == token.SHL {
+			return fmt.Sprintf("(%s * 2 ^ %s)", x, y), true // on Nat: no truncation; constants only
+		}
 		if ok1 && ok2 && op != "" {
 			return fmt.Sprintf("(%s %s %s)", x, op, y), true
 		}
@@ -487,6 +491,91 @@ func main() {
 			}
 		}
 	}
+	// ---- guard tables: every early exit of the decoders and of the validation code, in source order
+	type fnRef struct{ file, recv, name string }
+	guardFns := []fnRef{
+		{"plenccore/wire.go", "", "Skip"},
+		{"plenccodec/struct.go", "", "BuildStructCodec"},
+		{"plenccodec/struct.go", "StructCodec", "Read"},
+		{"plenccodec/wrapper.go", "PointerWrapper", "Read"},
+		{"plenccodec/wrapper.go", "WTLengthSliceWrapper", "Read"},
+		{"plenccodec/wrapper.go", "WTLengthSliceWrapper", "readAsWTLength"},
+		{"plenccodec/wrapper.go", "WTFixedSliceWrapper", "Read"},
+		{"plenccodec/wrapper.go", "WTVarIntSliceWrapper", "Read"},
+		{"plenccodec/wrapper.go", "ProtoSliceWrapper", "Read"},
+		{"plenccodec/map.go", "", "BuildMapCodec"},
+		{"plenccodec/map.go", "MapCodec", "Read"},
+		{"plenccodec/map.go", "MapCodec", "readMapEntry"},
+		{"plenccodec/map.go", "ProtoMapCodec", "Read"},
+		{"plenccodec/time.go", "TimeCodec", "Read"},
+		{"plenccodec/time.go", "TimeCompatCodec", "Read"},
+		{"plenccodec/string.go", "StringCodec", "Read"},
+		{"plenccodec/string.go", "BytesCodec", "Read"},
+		{"plenccodec/json.go", "JSONMapCodec", "Read"},
+		{"plenccodec/json.go", "JSONArrayCodec", "Read"},
+		{"plenccodec/json.go", "", "readJSONKV"},
+		{"plenccodec/descriptor.go", "Descriptor", "read"},
+		{"plenccodec/descriptor.go", "Descriptor", "readAsSlice"},
+		{"plenccodec/descriptor.go", "Descriptor", "readAsStruct"},
+		{"plenccodec/descriptor.go", "Descriptor", "readAsMapEntry"},
+		{"plenccodec/descriptor.go", "Descriptor", "readAsJSON"},
+		{"plenccodec/descriptor.go", "Descriptor", "readJSONObjectKV"},
+		{"codec.go", "Plenc", "CodecForTypeRegistry"},
+		{"codec.go", "", "refersToItself"},
+		{"cmd/plenctag/main.go", "config", "rewrite"},
+		{"cmd/plenctag/main.go", "config", "isExcluded"},
+	}
+	files := map[string]*ast.File{}
+	var gl []string
+	for _, fr := range guardFns {
+		f, ok := files[fr.file]
+		if !ok {
+			f = parseFile(filepath.Join(*repo, fr.file))
+			files[fr.file] = f
+		}
+		fd := findFunc(f, fr.name, fr.recv)
+		label := fr.name
+		if fr.recv != "" {
+			label = fr.recv + "." + fr.name
+		}
+		if fd == nil {
+			gl = append(gl, fmt.Sprintf("  (%s, [\"<function not found>\"])", leanStr(label)))
+			continue
+		}
+		var gs []string
+		for _, g := range guardsOf(fd) {
+			gs = append(gs, leanStr(g))
+		}
+		gl = append(gl, fmt.Sprintf("  (%s, [%s])", leanStr(label), strings.Join(gs, ", ")))
+	}
+	w("def guards : List (String × List String) := [\n%s\n]", strings.Join(gl, ",\n"))
+	// named integer constants the guards refer to
+	for _, c := range [][3]string{{"plenccodec/struct.go", "maxFieldIndex", "maxFieldIndex_codec"}, {"cmd/plenctag/main.go", "maxFieldIndex", "maxFieldIndex_tool"}} {
+		f, ok := files[c[0]]
+		if !ok {
+			f = parseFile(filepath.Join(*repo, c[0]))
+		}
+		val := "0"
+		found := false
+		ast.Inspect(f, func(n ast.Node) bool {
+			vs, ok := n.(*ast.ValueSpec)
+			if !ok {
+				return true
+			}
+			for i, nm := range vs.Names {
+				if nm.Name == c[1] && i < len(vs.Values) {
+					if x, ok := natExpr(vs.Values[i]); ok {
+						val, found = x, true
+					}
+				}
+			}
+			return true
+		})
+		if !found {
+			untranslated = append(untranslated, c[2])
+		}
+		w("def %s : Nat := %s", c[2], val)
+	}
 	w("def codecWireTypes : List (String × String) := [\n%s\n]", strings.Join(wts, ",\n"))
 	w("def codecDescriptors : List (String × String) := [\n%s\n]", strings.Join(descs, ",\n"))
 	w("def untranslated : List String := [%s]", quoteList(untranslated))
@@ -500,6 +589,56 @@ func main() {
 		fmt.Fprintln(os.Stderr, err)
 		os.Exit(1)
 	}
+}
+
+// guardsOf: every `if` of the function (nested ones included, in source order)
+// whose body leaves early — `return` (kind "ret": an error or a short-circuit
+// result), `continue`, `break` — as "kind: condition => what it returns".
+func guardsOf(fd *ast.FuncDecl) []string {
+	var out []string
+	src := func(n ast.Node) string {
+		var b strings.Builder
+		printer.Fprint(&b, fset, n)
+		return strings.Join(strings.Fields(b.String()), " ")
+	}
+	ast.Inspect(fd.Body, func(n ast.Node) bool {
+		if fs, ok := n.(*ast.ForStmt); ok {
+			c := "true"
+			if fs.Cond != nil {
+				c = src(fs.Cond)
+			}
+			post := ""
+			if fs.Post != nil {
+				post = "; " + src(fs.Post)
+			}
+			out = append(out, "for: "+c+post)
+			return true
+		}
+		is, ok := n.(*ast.IfStmt)
+		if !ok || len(is.Body.List) == 0 {
+			return true
+		}
+		cond := src(is.Cond)
+		if is.Init != nil {
+			cond = src(is.Init) + "; " + cond
+		}
+		switch last := is.Body.List[len(is.Body.List)-1].(type) {
+		case *ast.ReturnStmt:
+			var rs []string
+			for _, r := range last.Results {
+				if ce, ok := r.(*ast.CallExpr); ok && strings.HasSuffix(src(ce.Fun), "Errorf") {
+					rs = append(rs, "error")
+				} else {
+					rs = append(rs, src(r))
+				}
+			}
+			out = append(out, "ret: "+cond+" => "+strings.Join(rs, ", "))
+		case *ast.BranchStmt:
+			out = append(out, last.Tok.String()+": "+cond)
+		}
+		return true
+	})
+	return out
 }
 
 func quoteList(xs []string) string {
